@@ -1,6 +1,6 @@
 (* C12 - current_context() follows strict per-task stack discipline. *)
 From Coq Require Import List Bool Arith.
-From Asphalt Require Import Conc.CurCtx Conc.CurCtxProofs Td.Lifecycle Gen.Gen_lifecycle.
+From Asphalt Require Import Conc.CurCtx Conc.CurCtxProofs Td.Lifecycle Gen.Gen_lifecycle Ctx.CtxBaseTie Gen.Gen_ctxbase.
 Import ListNotations.
 
 (* current_context() is the innermost context the observing task itself is in *)
@@ -94,3 +94,12 @@ Print Assumptions C12_pushed_last_sees_everything.
 Theorem C12_teardown_callbacks_pushed_last : forall has_parent, exists l, exit_entries has_parent = l ++ [E_teardown_callbacks].
 Proof. exact teardown_callbacks_pushed_last. Qed.
 Print Assumptions C12_teardown_callbacks_pushed_last.
+
+(* Context.__init__ / current_context() as read from the source on this run: a new context is inactive; its parent
+   is the one given explicitly, else the creating task's current context; a component's view of the context is
+   replaced by the real context behind it; current_context() reads the task's context variable *)
+Theorem C12_context_creation_in_source :
+  ctx_starts_inactive = true /\ ctx_explicit_parent_first = true /\ ctx_component_view_unwrapped = true /\
+  ctx_task_group_shared_with_descendants = true /\ ctx_current_is_the_context_variable = true.
+Proof. exact context_creation_source_shape. Qed.
+Print Assumptions C12_context_creation_in_source.
